@@ -43,6 +43,10 @@ enum St {
     Yielded,  // inside a job, parked at a scheduling point
     Finished, // result waiting to be collected
     Blocked,  // inside a job, asleep on a lock held by a parked node; does not own the baton
+    /// inside a job, waiting in a *simulated* futex wait (a contended std Mutex / RwLock / Once /
+    /// Condvar / park of the code under test): parked like `Yielded`, but not runnable until
+    /// another node's FUTEX_WAKE on the same word (or, for timed waits, the scheduler's timeout)
+    FutexWait,
     Exit,
 }
 
@@ -57,6 +61,9 @@ struct Slot {
     tid: i32,
     /// the node has picked up the baton it was granted and has not handed it back yet
     running: bool,
+    /// FutexWait: (word address, arrival number, has a timeout)
+    futex: Option<(usize, u64, bool)>,
+    timed_out: bool,
 }
 
 struct Shared {
@@ -67,6 +74,7 @@ struct Shared {
 struct Inner {
     turn: usize,
     slots: Vec<Slot>,
+    futex_seq: u64,
 }
 
 struct NodeCtx {
@@ -76,8 +84,96 @@ struct NodeCtx {
 }
 
 thread_local! {
+    /// true while this node thread executes a job (code under test), false inside the runtime and
+    /// the seams: only then are the thread's futex calls simulated
+    static IN_JOB: std::cell::Cell<bool> = const { std::cell::Cell::new(false) };
+    /// this thread created a Runtime: it is the scheduler (its futex calls are the runtime's own)
+    static IS_SCHED: std::cell::Cell<bool> = const { std::cell::Cell::new(false) };
     static CTX: RefCell<Option<NodeCtx>> = const { RefCell::new(None) };
     static LAST_PANIC: RefCell<Option<PanicInfo>> = const { RefCell::new(None) };
+}
+
+/// While alive, futex calls of this thread go to the kernel (the runtime's own locks and
+/// condition variables are real).
+pub struct RtGuard(bool);
+impl RtGuard {
+    pub fn enter() -> RtGuard {
+        RtGuard(IN_JOB.try_with(|j| j.replace(false)).unwrap_or(false))
+    }
+}
+impl Drop for RtGuard {
+    fn drop(&mut self) {
+        let _ = IN_JOB.try_with(|j| j.set(self.0));
+    }
+}
+pub fn in_job() -> bool {
+    IN_JOB.try_with(|j| j.get()).unwrap_or(false)
+}
+pub fn is_sched_thread() -> bool {
+    IS_SCHED.try_with(|j| j.get()).unwrap_or(true)
+}
+
+/// Yield after a simulated FUTEX_WAKE that woke somebody (so that the scheduler decides whether
+/// the waker or the woken thread goes on first). Set by scenarios that interleave nodes.
+pub static FUTEX_WAKE_YIELDS: std::sync::atomic::AtomicBool = std::sync::atomic::AtomicBool::new(false);
+pub static FUTEX_SIM: std::sync::atomic::AtomicBool = std::sync::atomic::AtomicBool::new(true);
+static RUNTIMES: Mutex<Vec<std::sync::Weak<Shared>>> = Mutex::new(Vec::new());
+
+/// Simulated FUTEX_WAIT of the current node thread (the caller has checked `*addr == expected`
+/// while owning the baton). Returns 0 when woken, ETIMEDOUT when a timed wait was ended by the
+/// scheduler, -1 when this thread is not under the scheduler (caller falls back to the kernel).
+pub fn sim_futex_wait(addr: usize, timed: bool) -> i32 {
+    let _rt = RtGuard::enter();
+    let ctx = CTX.with(|c| c.borrow().as_ref().map(|c| (c.shared.clone(), c.cv.clone(), c.id)));
+    let Some((shared, cv, id)) = ctx else { return -1 };
+    let mut g = shared.m.lock().unwrap_or_else(|e| e.into_inner());
+    if g.turn != id || g.slots[id].st == St::Exit {
+        return -1;
+    }
+    g.futex_seq += 1;
+    let seq = g.futex_seq;
+    g.slots[id].st = St::FutexWait;
+    g.slots[id].futex = Some((addr, seq, timed));
+    g.slots[id].timed_out = false;
+    g.slots[id].running = false;
+    g.turn = SCHED;
+    shared.sched_cv.notify_one();
+    while g.turn != id {
+        g = cv.wait(g).unwrap_or_else(|e| e.into_inner());
+    }
+    g.slots[id].running = true;
+    if g.slots[id].timed_out {
+        g.slots[id].timed_out = false;
+        libc::ETIMEDOUT
+    } else {
+        0
+    }
+}
+
+/// Simulated FUTEX_WAKE: makes up to `n` simulated waiters on `addr` runnable (in arrival order),
+/// in every live runtime. Callable from any thread. Returns how many were woken.
+pub fn sim_futex_wake(addr: usize, n: u32) -> u32 {
+    let _rt = RtGuard::enter();
+    let list: Vec<Arc<Shared>> = RUNTIMES.lock().unwrap_or_else(|e| e.into_inner()).iter().filter_map(|w| w.upgrade()).collect();
+    let mut woken = 0u32;
+    for shared in list {
+        let mut g = shared.m.lock().unwrap_or_else(|e| e.into_inner());
+        let mut waiters: Vec<(u64, usize)> = g.slots.iter().enumerate().filter(|(_, s)| s.st == St::FutexWait && s.futex.map(|f| f.0) == Some(addr)).map(|(i, s)| (s.futex.map(|f| f.1).unwrap_or(0), i)).collect();
+        waiters.sort();
+        for (_, i) in waiters {
+            if woken >= n {
+                break;
+            }
+            g.slots[i].st = St::Yielded;
+            g.slots[i].last_yield = YieldKind::Explicit;
+            g.slots[i].futex = None;
+            woken += 1;
+        }
+        if woken > 0 {
+            shared.sched_cv.notify_one();
+        }
+    }
+    woken
 }
 
 /// Install a quiet panic hook that records location and message per thread.
@@ -119,6 +215,7 @@ pub fn guarded<R>(f: impl FnOnce() -> R) -> Result<R, PanicInfo> {
 
 /// Called from the seams on a node thread: hand the baton back and wait for the next grant.
 pub fn yield_point(kind: YieldKind) {
+    let _rt = RtGuard::enter();
     let ctx = CTX.with(|c| c.borrow().as_ref().map(|c| (c.shared.clone(), c.cv.clone(), c.id)));
     let Some((shared, cv, id)) = ctx else { return };
     let mut g = shared.m.lock().unwrap_or_else(|e| e.into_inner());
@@ -149,6 +246,7 @@ pub fn yield_point(kind: YieldKind) {
 /// Called at the *entry* of a seam on a node thread: a node that lost the baton while it slept
 /// on a lock must not touch simulated state before it is granted again.
 pub fn reacquire_if_lost() {
+    let _rt = RtGuard::enter();
     let ctx = CTX.with(|c| c.borrow().as_ref().map(|c| (c.shared.clone(), c.cv.clone(), c.id)));
     let Some((shared, cv, id)) = ctx else { return };
     let mut g = shared.m.lock().unwrap_or_else(|e| e.into_inner());
@@ -214,8 +312,15 @@ impl Default for Runtime {
 
 impl Runtime {
     pub fn new() -> Self {
+        let shared = Arc::new(Shared { m: Mutex::new(Inner { turn: SCHED, slots: Vec::new(), futex_seq: 0 }), sched_cv: Condvar::new() });
+        let _ = IS_SCHED.try_with(|s| s.set(true));
+        {
+            let mut r = RUNTIMES.lock().unwrap_or_else(|e| e.into_inner());
+            r.retain(|w| w.strong_count() > 0);
+            r.push(Arc::downgrade(&shared));
+        }
         Runtime {
-            shared: Arc::new(Shared { m: Mutex::new(Inner { turn: SCHED, slots: Vec::new() }), sched_cv: Condvar::new() }),
+            shared,
             cvs: Vec::new(),
             handles: Vec::new(),
             spawned: 0,
@@ -229,7 +334,7 @@ impl Runtime {
     pub fn add_node(&mut self) -> usize {
         let id = {
             let mut g = self.shared.m.lock().unwrap_or_else(|e| e.into_inner());
-            g.slots.push(Slot { st: St::Idle, job: None, result: None, last_yield: YieldKind::Explicit, alive: true, tid: 0, running: false });
+            g.slots.push(Slot { st: St::Idle, job: None, result: None, last_yield: YieldKind::Explicit, alive: true, tid: 0, running: false, futex: None, timed_out: false });
             g.slots.len() - 1
         };
         self.cvs.push(Arc::new(Condvar::new()));
@@ -255,7 +360,7 @@ impl Runtime {
         self.stop_node(id);
         {
             let mut g = self.shared.m.lock().unwrap_or_else(|e| e.into_inner());
-            g.slots[id] = Slot { st: St::Idle, job: None, result: None, last_yield: YieldKind::Explicit, alive: true, tid: 0, running: false };
+            g.slots[id] = Slot { st: St::Idle, job: None, result: None, last_yield: YieldKind::Explicit, alive: true, tid: 0, running: false, futex: None, timed_out: false };
         }
         self.spawn_thread(id);
     }
@@ -299,7 +404,7 @@ impl Runtime {
     /// Nodes that are inside a job but asleep on a lock (see `Step::Blocked`).
     pub fn blocked(&self) -> Vec<usize> {
         let g = self.shared.m.lock().unwrap_or_else(|e| e.into_inner());
-        g.slots.iter().enumerate().filter(|(_, s)| s.st == St::Blocked).map(|(i, _)| i).collect()
+        g.slots.iter().enumerate().filter(|(_, s)| matches!(s.st, St::Blocked | St::FutexWait)).map(|(i, _)| i).collect()
     }
 
     /// Result of a node that finished while it did not own the baton (it had been `Blocked`).
@@ -316,6 +421,21 @@ impl Runtime {
     pub fn wait_for_blocked(&mut self, millis: u64) -> bool {
         let deadline = std::time::Instant::now() + std::time::Duration::from_millis(millis);
         let mut g = self.shared.m.lock().unwrap_or_else(|e| e.into_inner());
+        // nobody can run: a simulated *timed* wait times out now (the earliest arrival first)
+        if !g.slots.iter().any(|s| matches!(s.st, St::Yielded | St::Finished | St::Runnable)) {
+            let timed: Option<usize> = g.slots.iter().enumerate().filter(|(_, s)| s.st == St::FutexWait && s.futex.map(|f| f.2).unwrap_or(false)).min_by_key(|(_, s)| s.futex.map(|f| f.1).unwrap_or(0)).map(|(i, _)| i);
+            if let Some(i) = timed {
+                g.slots[i].st = St::Yielded;
+                g.slots[i].last_yield = YieldKind::Explicit;
+                g.slots[i].futex = None;
+                g.slots[i].timed_out = true;
+                return true;
+            }
+        }
+        // only simulated waiters and nobody to wake them: unless a thread outside the simulation
+        // (one the code under test started itself) does, this is a deadlock of the code under test
+        let only_sim = !g.slots.iter().any(|s| s.st == St::Blocked);
+        let deadline = if only_sim { deadline.min(std::time::Instant::now() + std::time::Duration::from_millis(300)) } else { deadline };
         loop {
             if g.slots.iter().any(|s| matches!(s.st, St::Yielded | St::Finished | St::Runnable)) {
                 return true;
@@ -373,6 +493,10 @@ impl Runtime {
             St::Finished => {
                 g.slots[id].st = St::Idle;
                 Step::Finished(g.slots[id].result.take().expect("finished without result"))
+            }
+            St::FutexWait => {
+                self.blocked_events += 1;
+                Step::Blocked
             }
             other => panic!("unexpected node state {:?}", other),
         }
@@ -442,7 +566,9 @@ fn node_main(shared: Arc<Shared>, cv: Arc<Condvar>, id: usize) {
             shared.sched_cv.notify_one();
             continue;
         };
+        let _ = IN_JOB.try_with(|j| j.set(true));
         let res = guarded(job);
+        let _ = IN_JOB.try_with(|j| j.set(false));
         let mut g = shared.m.lock().unwrap_or_else(|e| e.into_inner());
         g.slots[id].result = Some(res);
         g.slots[id].st = St::Finished;
@@ -452,4 +578,168 @@ fn node_main(shared: Arc<Shared>, cv: Arc<Condvar>, id: usize) {
         }
         shared.sched_cv.notify_one();
     }
+}
+
+
+/// Self-test of the simulated futex (run by `sdsim selftest`): two nodes contend for a std Mutex
+/// whose holder is parked at a scheduling point inside the critical section; a Condvar hand-over;
+/// a RwLock writer waiting for a parked reader; a timed wait nobody wakes; a two-lock deadlock.
+/// Every schedule below must come out exactly as written, every time.
+pub fn self_test() -> Result<(), String> {
+    use std::sync::atomic::{AtomicU32, Ordering};
+    use std::sync::RwLock;
+    let log: Arc<Mutex<Vec<&'static str>>> = Arc::new(Mutex::new(Vec::new()));
+    let note = |l: &Arc<Mutex<Vec<&'static str>>>, s: &'static str| {
+        let _g = RtGuard::enter();
+        l.lock().unwrap_or_else(|e| e.into_inner()).push(s);
+    };
+    // 1. Mutex: A locks, yields inside; B blocks; A finishes; B gets the lock
+    {
+        let mut rt = Runtime::new();
+        let (a, b) = (rt.add_node(), rt.add_node());
+        let m = Arc::new(Mutex::new(0u32));
+        let (m1, l1) = (m.clone(), log.clone());
+        rt.submit(a, Box::new(move || {
+            let mut g = m1.lock().unwrap();
+            note(&l1, "A in");
+            yield_point(YieldKind::Explicit);
+            *g += 1;
+            note(&l1, "A out");
+            drop(g);
+            Box::new(()) as JobOut
+        }));
+        let (m2, l2) = (m.clone(), log.clone());
+        rt.submit(b, Box::new(move || {
+            let mut g = m2.lock().unwrap();
+            note(&l2, "B in");
+            *g += 10;
+            Box::new(()) as JobOut
+        }));
+        if !matches!(rt.step(a), Step::Yielded(_)) {
+            return Err("futex self-test: A did not yield".into());
+        }
+        if !matches!(rt.step(b), Step::Blocked) {
+            return Err("futex self-test: B did not block on the mutex held by parked A".into());
+        }
+        if rt.runnable() != vec![a] {
+            return Err(format!("futex self-test: runnable {:?} while B waits", rt.runnable()));
+        }
+        if !matches!(rt.step(a), Step::Finished(_)) {
+            return Err("futex self-test: A did not finish".into());
+        }
+        if rt.runnable() != vec![b] {
+            return Err("futex self-test: B not woken by A's unlock".into());
+        }
+        if !matches!(rt.step(b), Step::Finished(_)) {
+            return Err("futex self-test: B did not finish".into());
+        }
+        let got = log.lock().unwrap().clone();
+        if got != ["A in", "A out", "B in"] || *m.lock().unwrap() != 11 {
+            return Err(format!("futex self-test: order {:?}", got));
+        }
+        rt.shutdown();
+    }
+    // 2. RwLock writer behind a parked reader, Condvar hand-over, timed wait without a waker
+    {
+        let mut rt = Runtime::new();
+        let (a, b) = (rt.add_node(), rt.add_node());
+        let rw = Arc::new(RwLock::new(0u32));
+        let r1 = rw.clone();
+        rt.submit(a, Box::new(move || {
+            let g = r1.read().unwrap();
+            yield_point(YieldKind::Explicit);
+            let v = *g;
+            drop(g);
+            Box::new(v) as JobOut
+        }));
+        let r2 = rw.clone();
+        rt.submit(b, Box::new(move || {
+            *r2.write().unwrap() = 7;
+            Box::new(()) as JobOut
+        }));
+        let _ = rt.step(a);
+        if !matches!(rt.step(b), Step::Blocked) {
+            return Err("futex self-test: writer did not block behind the parked reader".into());
+        }
+        let _ = rt.step(a);
+        if !matches!(rt.step(b), Step::Finished(_)) || *rw.read().unwrap() != 7 {
+            return Err("futex self-test: writer did not get the lock after the reader left".into());
+        }
+        // Condvar
+        let pair = Arc::new((Mutex::new(false), Condvar::new()));
+        let p1 = pair.clone();
+        rt.submit(a, Box::new(move || {
+            let (m, cv) = &*p1;
+            let mut g = m.lock().unwrap();
+            while !*g {
+                g = cv.wait(g).unwrap();
+            }
+            Box::new(()) as JobOut
+        }));
+        let p2 = pair.clone();
+        rt.submit(b, Box::new(move || {
+            let (m, cv) = &*p2;
+            *m.lock().unwrap() = true;
+            cv.notify_one();
+            Box::new(()) as JobOut
+        }));
+        if !matches!(rt.step(a), Step::Blocked) {
+            return Err("futex self-test: condvar waiter did not park".into());
+        }
+        if !matches!(rt.step(b), Step::Finished(_)) {
+            return Err("futex self-test: notifier did not finish".into());
+        }
+        if !matches!(rt.step(a), Step::Finished(_)) {
+            return Err("futex self-test: condvar waiter not released".into());
+        }
+        // timed wait nobody ends: the scheduler times it out
+        let word = Arc::new(AtomicU32::new(0));
+        let w1 = word.clone();
+        rt.submit(a, Box::new(move || {
+            let ts = libc::timespec { tv_sec: 3600, tv_nsec: 0 };
+            let r = unsafe { libc::syscall(libc::SYS_futex, w1.as_ptr(), libc::FUTEX_WAIT | libc::FUTEX_PRIVATE_FLAG, 0u32, &ts as *const libc::timespec) };
+            let e = unsafe { *libc::__errno_location() };
+            Box::new((r, e)) as JobOut
+        }));
+        if !matches!(rt.step(a), Step::Blocked) {
+            return Err("futex self-test: timed waiter did not park".into());
+        }
+        if !rt.runnable().is_empty() || !rt.wait_for_blocked(1000) || rt.runnable() != vec![a] {
+            return Err("futex self-test: timed wait was not ended by the scheduler".into());
+        }
+        match rt.step(a) {
+            Step::Finished(Ok(o)) => {
+                let (r, e) = *o.downcast::<(libc::c_long, libc::c_int)>().map_err(|_| "type")?;
+                if r != -1 || e != libc::ETIMEDOUT {
+                    return Err(format!("futex self-test: timed wait returned {} errno {}", r, e));
+                }
+            }
+            _ => return Err("futex self-test: timed waiter did not finish".into()),
+        }
+        let _ = word.load(Ordering::SeqCst);
+        // deadlock of the code under test: both nodes end up waiting, nobody is runnable
+        let (x, y) = (Arc::new(Mutex::new(())), Arc::new(Mutex::new(())));
+        let (x1, y1, x2, y2) = (x.clone(), y.clone(), x.clone(), y.clone());
+        rt.submit(a, Box::new(move || {
+            let _gx = x1.lock().unwrap();
+            yield_point(YieldKind::Explicit);
+            let _gy = y1.lock().unwrap();
+            Box::new(()) as JobOut
+        }));
+        rt.submit(b, Box::new(move || {
+            let _gy = y2.lock().unwrap();
+            yield_point(YieldKind::Explicit);
+            let _gx = x2.lock().unwrap();
+            Box::new(()) as JobOut
+        }));
+        let _ = rt.step(a);
+        let _ = rt.step(b);
+        let (sa, sb) = (rt.step(a), rt.step(b));
+        if !matches!(sa, Step::Blocked) || !matches!(sb, Step::Blocked) || !rt.runnable().is_empty() || rt.wait_for_blocked(50) {
+            return Err("futex self-test: a two-lock deadlock was not recognised".into());
+        }
+        // the two node threads stay parked for good; leak the runtime instead of joining them
+        std::mem::forget(rt);
+    }
+    Ok(())
 }
